@@ -86,6 +86,8 @@ class DiskSink(Sink[Union[str,Sequence[str]]]):
         if self._count == 0 and self._file is not None:
             self._file.close()
             self._file = None
+            #a batched write re-opens the file for every batch, only the first one may truncate it
+            if self._mode[:1] == 'w': self._mode = 'a'+self._mode[1:]
 
     def write(self, lines: Union[str,Iterable[str]]) -> None:
         if isinstance(lines,str):
